@@ -244,9 +244,11 @@ HARNESSES += [
         "argument length <= 4 (quick) / 6 (thorough) bytes, every byte symbolic",
         {"VERIF_ARGLEN": "4"}, {"VERIF_ARGLEN": "6"}, 16, 24),
     win("win_argv_join", "WIN_argv_join",
-        "real argv_join: the command line splits back into exactly the original arguments, no extra argument, buffer exact",
-        "at most 2 arguments of at most 2 (quick) / 3 (thorough) bytes",
-        {"VERIF_ARGLEN": "2", "VERIF_NARGS": "2"}, {"VERIF_ARGLEN": "3", "VERIF_NARGS": "2"}, 14, 20),
+        "real argv_join with argument_escaped_size / argument_escape replaced by their contracts: the buffer has room for "
+        "every argument (precondition of argument_escape at each call site), single spaces between, NUL at the exact end",
+        "at most 2 (quick) / 3 (thorough) arguments; argument sizes symbolic up to 2*len+2",
+        {"VERIF_ARGLEN": "4", "VERIF_NARGS": "2"}, {"VERIF_ARGLEN": "6", "VERIF_NARGS": "3"}, 8, 10,
+        replace=["argument_escaped_size", "argument_escape"]),
     win("win_env_block", "WIN_env",
         "real env_join_size / env_join: entries in order, each NUL-terminated, closed by a final NUL, size exact",
         "at most 2 entries of at most 3 (quick) / 4 (thorough) bytes",
